@@ -7,6 +7,7 @@
     population), ALL batch sizes / clocks and EVERY cut k. *)
 From Coq Require Import ZArith List Bool.
 From TM Require Import Trace.Archive Trace.ArchiveP.
+From TM Require Import Base.ShapeCanon.
 Import ListNotations.
 Open Scope Z_scope.
 
@@ -151,3 +152,10 @@ Example C18_nonvacuous :
     = [9; 5] /\
   cleanup_server_trace_writes 2 ex_s <> None.
 Proof. vm_compute. repeat split; discriminate. Qed.
+
+(** the functions named by this property's anchors still have the statement skeleton the model was written from
+    (re-extracted from the Python AST on every run, harness/tables_shape.py + harness/shape_pins.json; kept last so that
+    a difference does not stop the theorems above from being checked) *)
+Theorem C18_source_shape : shapes_ok_C18 = true.
+Proof. vm_compute. reflexivity. Qed.
+Print Assumptions C18_source_shape.
